@@ -124,7 +124,7 @@ def pHistory : TP (Cache × List Op) := do
   let hasShift ← nat
   let _permV ← nat; let _maskF16 ← nat; let _maxNodes ← nat
   let ops ← listOf pOp
-  let v : Variant := { fixDefrag := vbits % 2 = 1, fixResume := (vbits / 2) % 2 = 1, fixDiv := (vbits / 4) % 2 = 1 }
+  let v : Variant := { fixDefrag := vbits % 2 = 1, fixResume := (vbits / 2) % 2 = 1, fixDiv := (vbits / 4) % 2 = 1, perSeqBatch := (vbits / 8) % 2 = 1 }
   pure (init v w maxSeq capacity maxBatch cpad bpad (hasShift != 0), ops)
 
 def runHistory (layout : Bool) (c : Cache) (ops : List Op) : String :=
@@ -179,7 +179,7 @@ def pWHistory : TP (List Cache × List Op) := do
   let hasShift ← nat
   let _permV ← nat; let _maskF16 ← nat; let _maxNodes ← nat
   let ops ← listOf pOp
-  let v : Variant := { fixDefrag := vbits % 2 = 1, fixResume := (vbits / 2) % 2 = 1, fixDiv := (vbits / 4) % 2 = 1 }
+  let v : Variant := { fixDefrag := vbits % 2 = 1, fixResume := (vbits / 2) % 2 = 1, fixDiv := (vbits / 4) % 2 = 1, perSeqBatch := (vbits / 8) % 2 = 1 }
   let swa := init v w maxSeq capacity maxBatch cpad bpad (hasShift != 0)
   let full := init v none maxSeq capacity maxBatch cpad bpad (hasShift != 0)
   pure (if order = 2 then [full, swa] else [swa, full], ops)
